@@ -82,6 +82,12 @@ func (f *vestFam) track(a string) {
 }
 func (f *vestFam) trackTok(a addrTok) {
 	if a.ok {
+		// balances and account records belong to the ACCOUNT: track it under its canonical spelling
+		// (bech32 also accepts the all-upper-case form of the same address)
+		if acc, err := sdk.AccAddressFromBech32(a.s); err == nil {
+			f.track(acc.String())
+			return
+		}
 		f.track(a.s)
 	}
 }
